@@ -11,8 +11,14 @@ use zlink_core::Connection;
 ///   3 a `more` exchange that ended with an error; 4 an exchange answered with an error; 5 a 3 KB call and a
 ///   3 KB reply (both buffers grown); 6 a oneway call; 7 two pipelined exchanges
 pub fn warm_up(conn: &mut Connection<VSocket>, wire: &WireRef, rng: &mut Rng) -> u8 {
-    use zlink_core::Call;
     let kind = rng.below(8) as u8;
+    warm_up_kind(conn, wire, kind);
+    kind
+}
+
+/// The same with a given kind of history (0..=7).
+pub fn warm_up_kind(conn: &mut Connection<VSocket>, wire: &WireRef, kind: u8) {
+    use zlink_core::Call;
     let call = |m: &str, more: bool, oneway: bool, pad: usize| Call::new(json!({"method": m, "parameters": {"pad": "p".repeat(pad)}})).set_more(more).set_oneway(oneway);
     let push = |frames: &[String]| {
         let mut w = wire.borrow_mut();
@@ -70,7 +76,6 @@ pub fn warm_up(conn: &mut Connection<VSocket>, wire: &WireRef, rng: &mut Rng) ->
     w.write_calls = 0;
     w.read_polls = 0;
     w.read_polls_when_empty = 0;
-    kind
 }
 
 pub fn with_history(ctx: &str, kind: u8) -> String {
